@@ -649,6 +649,19 @@ class C20Session(Session):
                     if sm.is_alias(leaf):
                         self.probe("alias_written")
                     M.set_obj(i, leaf, v)
+                tw = op.get("twin")
+                if tw:
+                    # the same leaf of another object gets a colour tuple that compares equal in Python but means
+                    # another colour ((0.0, 0.0, 1.0, 1) vs (0, 0, 1, 1.0)): value-keyed caches must tell them apart
+                    j = tw["o"] % len(w.objs)
+                    out2 = self._guard(lambda: self._write_obj(w.objs[j], tw["items"], "magic_update"))
+                    if out2 == "ok":
+                        for leaf, v in tw["items"]:
+                            if leaf in M.S[j]:
+                                M.set_obj(j, leaf, v)
+                        self.probe("equal_but_different_colour_tuples_in_one_run")
+                    else:
+                        out = out2
         elif k == "new_obj":
             holder = {}
             self._defer_style_access = bool(op.get("then_copy"))
@@ -1119,6 +1132,17 @@ class Sim:
             if notation in ("mixed_update", "magic_then_dict") and rng.random() < 0.35:
                 items = self._same_leaf_twice(rng, items)
             op = {"op": "obj_set", "o": o, "notation": notation, "items": items}
+            # (a list of pairs, not a dict: these tuples compare - and hash - equal)
+            twins = [([0.0, 0.0, 1.0, 1], [0, 0, 1, 1.0]), ([0, 0, 1, 1.0], [0.0, 0.0, 1.0, 1]),
+                     ([0, 0, 1, 1], [0.0, 0.0, 1.0, 1]), ([0, 0, 1], [0.0, 0.0, 1.0]), ([0.0, 0.0, 1.0], [0, 0, 1]),
+                     ([1, 0, 0], [1.0, 0.0, 0.0]), ([1.0, 0.0, 0.0], [1, 0, 0])]
+            for leaf, v in items:
+                if isinstance(v, list) and not sm.is_alias(leaf):
+                    tv = next((t for k, t in twins if k == v and [type(x) for x in k] == [type(x) for x in v]), None)
+                    others = [j for j in range(n) if j != o and leaf in M.S[j]]
+                    if tv is not None and others:
+                        op["twin"] = {"o": rng.choice(others), "items": [[leaf, tv]]}
+                        break
             if cfg["invalid"]:
                 op["invalid"] = self._invalid(rng, items, self._leaves(M.S[o]))
         elif kind == "new_obj":
